@@ -345,6 +345,7 @@ func (b *Backoffer) UpdateUsingForked(forked *Backoffer) {
 			b.excludedSleep = forked.excludedSleep
 			b.errors = forked.errors
 			b.errorsNum = forked.errorsNum
+			b.configs = forked.configs
 			b.backoffSleepMS = forked.backoffSleepMS
 			b.backoffTimes = forked.backoffTimes
 			break
